@@ -56,6 +56,11 @@ class PyObj(object):
         return "PyObj(%s)" % (self.name or self.obj,)
 
 
+class SuperProxy(object):
+    def __init__(self, obj, after):
+        self.obj, self.after = obj, after
+
+
 class ConstDict(object):
     """A module-level dict with concrete keys (lookup table)."""
     def __init__(self, entries, name=None):
@@ -219,7 +224,7 @@ class Engine(object):
         s = z3.Solver()
         s.set("timeout", int(self.options.get("feas_timeout_ms", 800)))
         s.add(*pcq)
-        s.add(*ops.axioms_for(pcq))
+        s.add(*[a for a in ops.axioms_for(pcq) if not ops.has_quantifier(a)])
         import time
         t0 = time.time()
         r = s.check()
@@ -756,6 +761,11 @@ class Engine(object):
                     return self.call_function(fv.bind(base), [], {}, st, node)
                 return [(st, fv.bind(base))]
             raise EngineError("object of class %s has no modelled attribute %s" % (base.cls, attr))
+        if isinstance(base, SuperProxy):
+            m = self.find_method_after(base.obj.cls, base.after, attr)
+            if m is None:
+                raise EngineError("super().%s not found" % attr)
+            return [(st, m.bind(base.obj))]
         if isinstance(base, ModuleInfo):
             return [(st, self.lookup_global(attr, base))]
         if isinstance(base, ClassRef):
@@ -831,15 +841,44 @@ class Engine(object):
                         stack.append(bv_)
         return None
 
+    def find_method_after(self, clsname, after, attr):
+        """method `attr` in the bases of class `after` (single inheritance chains)"""
+        cr = self.class_by_name(after)
+        if cr is None:
+            return None
+        for b in cr.node.bases:
+            if isinstance(b, ast.Name):
+                try:
+                    bv_ = self.lookup_global(b.id, cr.mod)
+                except EngineError:
+                    continue
+                if isinstance(bv_, ClassRef):
+                    saved = self.options.get("classes", {})
+                    for n in bv_.node.body:
+                        if isinstance(n, ast.FunctionDef) and n.name == attr:
+                            return FuncV(n, bv_.mod, cls=bv_.node, qual=bv_.node.name + "." + attr)
+                    r = self.find_method_after(bv_.node.name, bv_.node.name, attr)
+                    if r is not None:
+                        return r
+        return None
+
     def class_by_name(self, clsname):
         reg = self.options.get("classes", {})
         if clsname in reg:
             mi, node, _ = reg[clsname]
             return ClassRef(node, mi)
-        if clsname in self.mod.classes:
-            return ClassRef(self.mod.classes[clsname], self.mod)
-        if self.cur_mod is not None and clsname in self.cur_mod.classes:
-            return ClassRef(self.cur_mod.classes[clsname], self.cur_mod)
+        for m in (self.mod, self.cur_mod, self.spec_mod):
+            if m is not None and clsname in m.classes:
+                return ClassRef(m.classes[clsname], m)
+        for m in (self.mod, self.cur_mod, self.spec_mod):
+            if m is None:
+                continue
+            try:
+                v = self.lookup_global(clsname, m)
+            except EngineError:
+                continue
+            if isinstance(v, ClassRef):
+                return v
         return None
 
     # -- subscripts
@@ -1228,6 +1267,17 @@ class Engine(object):
         if self.depth > self.MAX_INLINE_DEPTH:
             raise EngineError("inlining depth exceeded at %s" % name)
         env = self.bind_params(fv, args, kwargs, st, node)
+        passed = {}
+        if isinstance(node, ast.Call) and not isinstance(fv.node, ast.Lambda):
+            pnames = [p.arg for p in fv.node.args.posonlyargs + fv.node.args.args]
+            if fv.bound is not None:
+                pnames = pnames[1:]
+            for pn, an in zip(pnames, node.args):
+                if isinstance(an, (ast.Name, ast.Attribute)) and pn in env:
+                    passed[pn] = (an, env[pn])
+            for kw in node.keywords:
+                if kw.arg in env and isinstance(kw.value, (ast.Name, ast.Attribute)):
+                    passed[kw.arg] = (kw.value, env[kw.arg])
         caller_env, caller_mod, caller_y = st.env, self.cur_mod, st.yielded
         is_gen = not isinstance(fv.node, ast.Lambda) and any(
             isinstance(n, (ast.Yield, ast.YieldFrom)) for n in walk_own(fv.node))
@@ -1251,6 +1301,12 @@ class Engine(object):
             s2 = State(dict(caller_env), s.pc, caller_y, s.trace, s.rand, s.ghost)
             if final_self is not None and isinstance(final_self, ObjV) and node is not None:
                 s2 = self.write_back_receiver(node, final_self, s2)
+            # reference semantics for mutable arguments (no aliasing assumed): a parameter that the
+            # callee rebinding-mutated is written back to the caller's argument expression
+            for pn, (an, orig) in passed.items():
+                fin = s.env.get(pn)
+                if fin is not orig and isinstance(orig, (ObjV, ListV, SeqV, MapV, SetV, LitSet, ConstDict)) and self._mutates_param(fv.node, pn):
+                    s2 = self.assign(an, fin, s2, node)
             if kind == "return" and isinstance(v, Raised):
                 out.append((s2, v))
             elif kind in ("return", "normal"):
@@ -1273,10 +1329,34 @@ class Engine(object):
             if id(n) not in self._site_ord:
                 self._site_ord[id(n)] = ("%s." % fn.name, i)
 
+    def _mutates_param(self, fnode, pn):
+        """does the function mutate (not merely rebind) its parameter pn?"""
+        for n in ast.walk(fnode):
+            if isinstance(n, (ast.Attribute, ast.Subscript)) and isinstance(n.ctx, ast.Store):
+                b = n
+                while isinstance(b, (ast.Attribute, ast.Subscript)):
+                    b = b.value
+                if isinstance(b, ast.Name) and b.id == pn:
+                    return True
+            if isinstance(n, ast.Call) and isinstance(n.func, ast.Attribute):
+                b = n.func.value
+                while isinstance(b, (ast.Attribute, ast.Subscript)):
+                    b = b.value
+                if isinstance(b, ast.Name) and b.id == pn and n.func.attr in (
+                        "append", "extend", "add", "update", "pop", "remove", "discard", "insert", "clear", "setdefault", "popleft", "appendleft", "sort", "reverse"):
+                    return True
+            if isinstance(n, ast.Call):
+                for a in n.args:
+                    if isinstance(a, ast.Name) and a.id == pn:
+                        return True      # passed on: the callee may mutate it
+        return False
+
     def write_back_receiver(self, callnode, newself, st):
         f = callnode.func if isinstance(callnode, ast.Call) else callnode
         if isinstance(f, ast.Attribute):
             tgt = f.value
+            if isinstance(tgt, ast.Call) and isinstance(tgt.func, ast.Name) and tgt.func.id == "super" and len(tgt.args) == 2:
+                return self.assign(tgt.args[1], newself, st)
             try:
                 return self.assign(tgt, newself, st)
             except EngineError:
